@@ -133,6 +133,7 @@ pub struct RunFacts {
     pub created: BTreeMap<String, usize>,
     pub rec_issue: Vec<usize>,
     pub prefix: Vec<Model>,
+    pub uncertain: bool,
 }
 
 pub fn run_facts(out: &RunOut) -> RunFacts {
@@ -151,7 +152,7 @@ pub fn run_facts(out: &RunOut) -> RunFacts {
             _ => {}
         }
     }
-    RunFacts { acks, created, rec_issue: out.records.iter().map(|r| r.t_issue).collect(), prefix: out.prefix_models() }
+    RunFacts { acks, created, rec_issue: out.records.iter().map(|r| r.t_issue).collect(), prefix: out.prefix_models(), uncertain: out.caller_errors > 0 }
 }
 
 impl RunFacts {
@@ -198,22 +199,43 @@ pub fn enumerate(initial: &Disk, trace: &[Ev], thorough: bool, rng: &mut Rng, bu
     let chosen: Vec<usize> = if thorough || points.len() <= budget_points {
         points.clone()
     } else {
-        // bias to the windows around create / unlink / ftruncate
+        // a third right after acknowledgements (everything acknowledged must survive any power
+        // loss there), a third in the windows around create / unlink / ftruncate, a third uniform
         let mut hot: Vec<usize> = vec![];
+        let mut after_ack: Vec<usize> = vec![];
         for (i, e) in trace.iter().enumerate() {
-            if let Ev::Fs(f) = e {
-                if matches!(f.op, FsOp::Create | FsOp::Unlink | FsOp::Ftruncate) && f.file != crate::shadow::LOCK {
+            match e {
+                Ev::Fs(f) if matches!(f.op, FsOp::Create | FsOp::Unlink | FsOp::Ftruncate) && f.file != crate::shadow::LOCK => {
                     for d in 0..4 {
                         if points.contains(&(i + d)) {
                             hot.push(i + d);
                         }
                     }
                 }
+                Ev::H(HEv::Ack { ok: true, .. }) => {
+                    // the last mutating event before the ack, and the next two after it
+                    if let Some(p) = points.iter().rev().find(|p| **p <= i) {
+                        after_ack.push(*p);
+                    }
+                    for p in points.iter().filter(|p| **p > i).take(2) {
+                        after_ack.push(*p);
+                    }
+                }
+                _ => {}
             }
         }
         let mut c = vec![];
-        while c.len() < budget_points {
-            let p = if !hot.is_empty() && rng.chance(50) { *rng.pick(&hot) } else { *rng.pick(&points) };
+        let mut tries = 0;
+        while c.len() < budget_points && tries < budget_points * 20 {
+            tries += 1;
+            let r = rng.below(3);
+            let p = if r == 0 && !after_ack.is_empty() {
+                *rng.pick(&after_ack)
+            } else if r == 1 && !hot.is_empty() {
+                *rng.pick(&hot)
+            } else {
+                *rng.pick(&points)
+            };
             if !c.contains(&p) {
                 c.push(p);
             }
@@ -430,11 +452,31 @@ pub fn check_run(
         stats.shapes.insert(shape_hash(&img));
         let (res, _) = eval_image(&img, &cfg, img_dir, false);
         judge(prop, &c, None, &img, &res, &facts, m, n, cc, stats, &mut |cl, d, cs| push(&mut viols, cl, d, cs));
+        // continuation: the recovered store must accept writes, flushes and a further restart
+        if cc.continuation {
+            if let Outcome::Opened { state, entries, read_err: None } = &res.outcome {
+                let sample = only.is_some() || cc.thorough && stats.continuations < 400 || rng.chance(12);
+                if let (true, Some(j)) = (sample, match_prefix(&facts.prefix, 0, facts.prefix.len() - 1, state, entries)) {
+                    stats.continuations += 1;
+                    *stats.probes.entry("continuation_after_recovery".into()).or_default() += 1;
+                    let mut crng = Rng::new(crate::rng::mix(&[c.k as u64, j as u64, 77]));
+                    let ops = crate::gen::gen_continuation(&mut crng, &facts.prefix[j]);
+                    let spec = crate::ops::Spec { prop: prop.to_string(), run_seed: c.k as u64, cfg: cfg.clone(), ops, sched: crate::ops::Sched::Default, faults: vec![], flush_batch: 1024, lower_term_reappend: false };
+                    let or = crate::exec::Oracles { prop: prop.to_string(), model_eq: true, restart_eq: true, ..Default::default() };
+                    // the recovered directory is what the first open left behind
+                    res.after.write_to(img_dir);
+                    let cont = crate::exec::run_spec_in(&spec, &or, img_dir, facts.prefix[j].clone());
+                    for v in cont.violations {
+                        push(&mut viols, format!("continuation:{}", v.class), format!("after recovery from crash {:?} (state = S_{j}): op #{}: {}", c, v.op_index, v.detail), c.clone());
+                    }
+                }
+            }
+        }
         // nested: crash during the recovery itself
         let want_nested = match (&c.nested, only) {
             (Some(_), _) => true,
             (None, Some(_)) => false,
-            (None, None) => cc.nested && res.trace.iter().any(|e| matches!(e, Ev::Fs(f) if matches!(f.op, FsOp::Create | FsOp::Ftruncate | FsOp::Write))),
+            (None, None) => cc.nested && matches!(res.outcome, Outcome::Opened { .. }) && res.trace.iter().any(|e| matches!(e, Ev::Fs(f) if matches!(f.op, FsOp::Create | FsOp::Ftruncate | FsOp::Write))),
         };
         if want_nested {
             // the image's own durability: a process-crash image keeps the synced lengths of the crash moment
@@ -481,6 +523,7 @@ fn judge(
     match &res.outcome {
         Outcome::Opened { state, entries, read_err } => {
             stats.opened += 1;
+            *stats.probes.entry(format!("opened_{:?}{}{}", c.kind, if m > 0 { "_with_acked_data" } else { "" }, if level2 { "_nested" } else { "" })).or_default() += 1;
             if let Some(e) = read_err {
                 if cc.check_prefix {
                     push(format!("recovered-read-err:{e}"), format!("recovered store cannot read its entries: {e}; crash {:?}", c), c.clone());
@@ -490,6 +533,9 @@ fn judge(
             if cc.check_prefix {
                 match match_prefix(&facts.prefix, m, n, state, entries) {
                     Some(_) => {}
+                    None if facts.uncertain => {
+                        // fault runs: the record list itself is uncertain after a caller-visible error
+                    }
                     None => {
                         // why?
                         let below = match_prefix(&facts.prefix, 0, m.saturating_sub(1), state, entries);
@@ -525,7 +571,7 @@ fn judge(
         Outcome::Panicked { loc, msg } => {
             stats.panicked += 1;
             if cc.check_recoverable {
-                let class = classify_failure("open-panic", &format!("{loc}:"), img, facts, c.k, level2);
+                let class = classify_failure("open-panic", &crate::exec::panic_class(loc, msg), img, facts, c.k, level2);
                 push(class, format!("crash {:?}: open panicked at {loc}: {msg}; image {:?}", c, image_shape(img)), c.clone());
             }
         }
